@@ -73,13 +73,17 @@ MANIFEST = {
     "level_text": ("Lean 4 theorems (Props/C07.lean): a generic backward-simulation theorem over abstract transition systems "
                    "(every valid plan of the original has a compiled counterpart of the same length, +1 with a goal action, mapping "
                    "back to it; hence an unsolvable compiled problem implies an unsolvable original), closed under composition, "
-                   "instantiated for the models of the compilers listed in the theorem list; models tied to /repo by a differential "
-                   "comparison of compiled problems; for ALL ten compilers and six pipelines the property itself is decided on the "
-                   "real code by an exhaustive end-to-end differential (every valid original plan up to length 3/4)."),
-    "level_note": ("Partial: no theorem for UsertypeFluentsRemover, TrajectoryConstraintsRemover, UndefinedInitialNumericRemover "
-                   "(end-to-end differential only); the pruning of effect-less variants (documented, relied on by the test-suite) "
-                   "makes the full statement false for plans containing a step that changes nothing: open finding, the theorem "
-                   "carries the hypothesis that excludes exactly that."),
+                   "instantiated for the models of ConditionalEffectsRemover, StateInvariantsRemover and the action split of "
+                   "DisjunctiveConditionsRemover (same plan length); a kernel-checked refutation of the full statement for "
+                   "ConditionalEffectsRemover on a concrete problem (effect-less variant pruned); five compiler models tied to /repo "
+                   "by a differential comparison of compiled problems; for ALL ten compilers and six pipelines the property itself "
+                   "is decided on the real code by an exhaustive end-to-end differential (every valid original plan up to length 3/4)."),
+    "level_note": ("Partial: parameterless actions, quantifier-free invariants, DisjunctiveConditionsRemover without goal action "
+                   "(the k+1 bound is proved only in the abstract frame); no theorem for BoundedTypesRemover, QuantifiersRemover, "
+                   "Grounder, NegativeConditionsRemover, UsertypeFluentsRemover, TrajectoryConstraintsRemover, "
+                   "UndefinedInitialNumericRemover; the pruning of effect-less variants (documented, relied on by the test-suite) "
+                   "and of statically conflicting variants makes the full statement false: open findings, the theorems carry "
+                   "decidable hypotheses that exclude exactly these causes."),
     "technique": "Lean 4 proof (simulation frame + per-compiler step lemmas) + model/code correspondence + exhaustive end-to-end differential",
     "design_ref": "DESIGN.md §5 C06/C07",
 }
